@@ -32,8 +32,41 @@ pub fn filter_cells(cells: Vec<Value>) -> Vec<Value> {
     }
 }
 
-/// Run every cell (never a sample) with bounded concurrency.
+/// Run every cell (never a sample) with bounded concurrency. Every cell runs in a task of its
+/// own under a watchdog: a panic inside the code under test, or a thread it blocks for good, is a
+/// verdict about that cell and not the end (or the hang) of the engine.
 pub async fn run_matrix<F, Fut>(cells: Vec<Value>, conc: usize, f: F) -> Vec<CellOut>
+where
+    F: Fn(Value) -> Fut,
+    Fut: Future<Output = (bool, Result<String, Fail>)> + Send + 'static,
+{
+    let watchdog = std::time::Duration::from_secs(std::env::var("VERIF_CELL_WATCHDOG_S").ok().and_then(|s| s.parse().ok()).unwrap_or(150));
+    let outs: Vec<CellOut> = futures::stream::iter(cells.into_iter().map(|c| {
+        let fut = f(c.clone());
+        async move {
+            let t = std::time::Instant::now();
+            let mut h = tokio::spawn(fut);
+            let (nontrivial, res) = match tokio::time::timeout(watchdog, &mut h).await {
+                Ok(Ok(r)) => r,
+                Ok(Err(e)) if e.is_panic() => (true, Err(fail("panicked", "cell", format!("the code under test panicked in this cell: {e}")))),
+                Ok(Err(e)) => (true, Err(fail("setup", "task", e.to_string()))),
+                Err(_) => {
+                    h.abort();
+                    (true, Err(fail("hung", "cell", format!("the cell neither finished nor failed within {watchdog:?} (every wait inside it is bounded by 20-60 s: something blocks for good)"))))
+                }
+            };
+            CellOut { case: c, nontrivial, res, wall_ms: t.elapsed().as_millis() }
+        }
+    }))
+    .buffer_unordered(conc)
+    .collect()
+    .await;
+    outs
+}
+
+/// Like `run_matrix`, for cells whose future cannot move between threads: they run inline on
+/// the calling task (no watchdog; every wait inside such a cell is bounded).
+pub async fn run_matrix_inline<F, Fut>(cells: Vec<Value>, conc: usize, f: F) -> Vec<CellOut>
 where
     F: Fn(Value) -> Fut,
     Fut: Future<Output = (bool, Result<String, Fail>)>,
